@@ -101,9 +101,13 @@ TEXTY = ("mj-text", "mj-button", "mj-social", "mj-social-element", "mj-navbar", 
 
 def fontify(d, rng):
     """put font families on components, in mj-attributes (per tag, mj-all, mj-class) and widths on columns / groups"""
+    wclasses = False
     for n in docgen.walk(d):
         if n["tag"] == "mj-column" and rng.random() < 0.4:
             n["attrs"]["width"] = rng.choice(["50%", "33.33%", "25%", "100px", "150px", "40%", "60%", "12.5%", "66.666%"])
+        if n["tag"] == "mj-column" and "width" not in n["attrs"] and "mj-class" not in n["attrs"] and rng.random() < 0.2:
+            n["attrs"]["mj-class"] = rng.choice(["wc30", "wc70", "wc120"])      # the width reaches the column through an mj-class
+            wclasses = True
         if n["tag"] == "mj-group" and rng.random() < 0.5:
             n["attrs"]["width"] = rng.choice(["100%", "300px", "50%", "40%"])
         if n["tag"] in TEXTY and rng.random() < 0.3:
@@ -116,6 +120,13 @@ def fontify(d, rng):
             n["attrs"].setdefault("name", rng.choice(["twitter", "facebook", "github"]))
         if n["tag"] == "mj-navbar" and rng.random() < 0.5:
             n["attrs"]["hamburger"] = "hamburger"
+    if wclasses:
+        head = next((c for c in d["children"] if c["tag"] == "mj-head"), None)
+        if head is None:
+            head = {"tag": "mj-head", "attrs": {}, "children": [], "text": None}
+            d["children"].insert(0, head)
+        head["children"].append({"tag": "mj-attributes", "attrs": {}, "text": None, "children": [
+            {"tag": "mj-class", "attrs": {"name": nm, "width": w}, "children": [], "text": None} for nm, w in (("wc30", "30%"), ("wc70", "70%"), ("wc120", "120px"))]})
     if rng.random() < 0.35:
         head = next((c for c in d["children"] if c["tag"] == "mj-head"), None)
         if head is None:
